@@ -11,6 +11,16 @@ Streams
   frames     recursion shapes (closures, methods, initialisers, native callbacks, self-containing containers) ×
              call-depth offsets; every Laythe function of a shape counts its activations and the frame model
              predicts exactly how many are admitted before the catchable `Stack overflow.`
+  rec        programs of the statement language of Model/RecFrames.lean (vlib/props/c16_rec.py): unbounded recursion through
+             every native that runs code of the program (each, reduce, all, any, into, sort comparator, call of functions /
+             closures / methods / natives, str() under print / List.str / Map.str / Tuple.str / assertEq / assertNe, lazy map /
+             filter driven by list / first / last / len / next / collect / for-in) x every alignment of the frame limit (the entry
+             padded by 0..3 frames: the limit falls on a Laythe frame and on the native's stub frame) x the overflow caught at
+             every level (script, function, callback of each such native, the recursion itself, a handler) x continuation
+             (natives with callbacks once more); plus random terms.  Each program runs twice: as it is, and with the recursion
+             bounded (control run, same text) — the model predicts outcome, activations admitted, handlers run and that the
+             temporary roots at the end equal those of the control run; the systematic part runs a third time with a collection
+             at every allocation (`--gc every:1`)
   misc       non-callables of every kind, `class A : <non-class>`, raising non-errors, property stores on
              non-instances, channel capacities, errors raised while handling errors, fibers that need more
              than 255 slots, exit / str() / raise inside native callbacks, the native `exit` itself as a callback,
@@ -1144,6 +1154,230 @@ def frames_stream(ctx, rows):
 
 
 # ---------------------------------------------------------------------------------------------
+# rec stream: unbounded recursion through every native that runs user code x every alignment of the frame limit x the overflow
+# caught at every level (script, function, callback of an enclosing native, the recursion itself, a handler) x continuation.
+# The programs are terms of the statement language of Model/RecFrames.lean (vlib/props/c16_rec.py renders them);
+# the model predicts the outcome, the number of activations admitted, the number of handlers run, and that the number of
+# temporary roots is the one of the control run (same text, the recursion gives up long before the limit).
+
+REC_MODEL = re.compile(r"out=(\w+) frames=(\d+) roots=(-?\d+) peak=(\d+) calls=(\d+) caught=(\d+) first=(\d)$")
+REC_END = re.compile(r"RES end d=(\d+) k=(\d+) bad=(\d+)")
+BIG_LIMIT = 10 ** 9
+
+
+def rec_guarded(defn, main):
+    """every entry of the recursion is below a `try` (of the script or of the recursion itself): the run must end normally"""
+    def unguarded(node, in_try):
+        if node[0] == "rec":
+            return not in_try
+        if node[0] == "try":
+            return unguarded(node[1], True) or unguarded(node[2], in_try)
+        return any(unguarded(c, in_try) for c in node[1:] if isinstance(c, tuple))
+    return not unguarded(defn, False) or not unguarded(main, False)
+
+
+def rec_spec(defn, main, r, control):
+    """implementation-vs-Spec, no model needed: neither run crashes; the control run ends normally; the run proper ends normally
+    having caught only `Stack overflow.` errors — or, when an entry of the recursion is not below any `try`, in that language error"""
+    for what, x in (("", r), ("control run (recursion bounded): ", control)):
+        if CRASH.match(x["status"]):
+            return what + "host crash / hang: %s" % x["status"][:200]
+    if control["status"] != "Ok:0" or not REC_END.search(control["stdout"]):
+        return "control run (recursion bounded) did not end normally: %s %r" % (control["status"], (control["stdout"] + control["stderr"])[-200:])
+    m = REC_END.search(r["stdout"])
+    if r["status"] == "Ok:0" and m:
+        if int(m.group(3)) != 0:
+            return "a handler caught an error that is not `Stack overflow.` (%s of them)" % m.group(3)
+        if int(m.group(2)) == 0:
+            return "unbounded recursion ended without any error"
+        return None
+    if r["status"] == "RuntimeError:1" and "Stack overflow." in r["stderr"] and not rec_guarded(defn, main):
+        return None
+    return "unbounded recursion below a `try` did not end in a caught `Stack overflow.` and normal continuation: %s %r" % (
+        r["status"], (r["stdout"][-120:] + r["stderr"][-200:]))
+
+
+def rec_tie(ml, r, control):
+    """model-vs-implementation: outcome, counters, temporary roots"""
+    mm = REC_MODEL.match(ml or "")
+    if not mm:
+        return "the model has no verdict: %s" % ml
+    out, calls, caught = mm.group(1), int(mm.group(5)), int(mm.group(6))
+    if out == "panic" or int(mm.group(3)) != 0:
+        return "the model itself predicts unbalanced temporary roots (%s)" % ml
+    m = REC_END.search(r["stdout"])
+    if out == "ok":
+        if r["status"] != "Ok:0" or not m:
+            return "the model predicts a normal end (%s); the program ended %s" % (ml, r["status"])
+        if (int(m.group(1)), int(m.group(2))) != (calls, caught):
+            return "the model admits %d activations and runs %d handlers; the program counted d=%s k=%s" % (calls, caught, m.group(1), m.group(2))
+    else:
+        if r["status"] != "RuntimeError:1":
+            return "the model predicts the uncaught error (%s); the program ended %s" % (ml, r["status"])
+    a, b = r.get("stats_end"), control.get("stats_end")
+    if out == "ok" and isinstance(a, dict) and isinstance(b, dict) and a.get("temp_roots") != b.get("temp_roots"):
+        return ("temporary roots are not balanced: %s at the end of the run, %s at the end of the control run (same text, recursion bounded); "
+                "the model predicts no difference" % (a.get("temp_roots"), b.get("temp_roots")))
+    return None
+
+
+def rec_shrink(defn, main, fails, budget=80):
+    """greedy reduction of the two terms: replace a node by a child / by skip, drop an item of a sequence"""
+    def variants(node):
+        t = node[0]
+        if t in ("skip", "rec"):
+            return
+        kids = [i for i, c in enumerate(node) if isinstance(c, tuple)]
+        for i in kids:
+            yield node[i]                                  # the node replaced by a child
+        if t == "seq" and len(kids) > 1:
+            for i in kids:
+                yield node[:i] + node[i + 1:]
+        for i in kids:
+            for v in variants(node[i]):
+                yield node[:i] + (v,) + node[i + 1:]
+        yield ("skip",)
+    import vlib.props.c16_rec as RC
+    changed = True
+    while changed and budget > 0:
+        changed = False
+        for which in (1, 0):
+            cur = (defn, main)[which]
+            for v in variants(cur):
+                cand = (v, main) if which == 0 else (defn, v)
+                if RC.count_rec(cand[0]) > 1:
+                    continue
+                budget -= 1
+                if budget <= 0:
+                    break
+                if fails(cand[0], cand[1]):
+                    defn, main = cand
+                    changed = True
+                    break
+            if changed:
+                break
+    return defn, main
+
+
+def rec_stream(ctx, rows, rng):
+    if hang_guard(ctx, "rec"):
+        return True
+    from . import c16_rec as RC
+    kinds = list(RC.KINDS)
+    if rows is not None:
+        # every native of the regenerated table that runs code of the program (or takes a callable) has a recipe
+        covered = RC.covered_natives() | set(RC.NOT_USER_CODE)
+        missing = [r["struct"] for r in rows if (r["callsBack"] or any(k == "Callable" for _, k in r["params"])) and r["struct"] not in covered]
+        if missing:
+            ctx.violation("rec_unreachable", {"kind": "model-vs-implementation", "broken": "a native of the regenerated table that calls back into the "
+                          "program has no recursion recipe in vlib/props/c16_rec.py (KINDS)", "natives": missing}, no_input=True)
+            return False
+    cycle_kinds = ["plain"] + RC.SINGLE
+    npads = 4
+    cases = RC.systematic(cycle_kinds, kinds, npads)
+    if RELEASE:
+        cases = [c for c in cases if rng.random() < 0.5]
+    for _ in range(10000 if SEARCH else ctx.n(2000, 40000)):
+        cases.append(RC.random_case(rng, RC.SINGLE, kinds))
+    lines = [RC.model_line(d_, m_) for _, d_, m_ in cases]
+    if HAVE_DRIVER:
+        ml = model_lines(lines, engine="rec")
+        if len(ml) != len(cases):
+            ml = ["<missing>"] * len(cases)
+    else:
+        ml = [None] * len(cases)
+    n = len(cases)
+    res = run_programs([RC.program(d_, m_, BIG_LIMIT) for _, d_, m_ in cases] + [RC.program(d_, m_, 2) for _, d_, m_ in cases],
+                       timeout=300, extra="--stats")
+    # once more with a collection at every allocation: the stub `Fun` of a native, the error being raised and the temporaries of
+    # the natives on the way must be rooted wherever the overflow strikes
+    # (the systematic cases and the first random ones: a collection per allocation makes the long random programs slow)
+    ngc = sum(1 for c in cases if "/" in c[0]) + 500
+    gres = run_programs([RC.program(d_, m_, BIG_LIMIT) for _, d_, m_ in cases[:ngc]], timeout=300, extra="--gc every:1 --stats")
+    gres += res[len(gres):n]
+    bad = tie = None
+    outcomes, first_by_kind, levels = {}, {}, {}
+    for i, (name, d_, m_) in enumerate(cases):
+        r, c = res[i], res[n + i]
+        ctx.count_case(["rec", lines[i]], nontrivial=True)
+        st = r["status"].split(":")[0]
+        outcomes[st] = outcomes.get(st, 0) + 1
+        mm = REC_MODEL.match(ml[i] or "")
+        if mm and "/" in name:
+            first_by_kind.setdefault(name.split("/")[0], set()).add(mm.group(7))
+            levels[name.split("/")[2]] = levels.get(name.split("/")[2], 0) + 1
+        msg = rec_spec(d_, m_, r, c)
+        gc = ""
+        if not msg:
+            msg = rec_spec(d_, m_, gres[i], c)
+            gc = " --gc every:1" if msg else ""
+        if msg:
+            if bad is None:
+                bad = (i, msg, gc)
+            continue
+        if ml[i] is not None and tie is None:
+            msg = rec_tie(ml[i], r, c)
+            if not msg:
+                msg = rec_tie(ml[i], gres[i], c)
+                gc = " --gc every:1" if msg else ""
+            if msg:
+                tie = (i, msg, gc)
+    ctx.cov["traces_validated_against_impl"] += 3 * n
+    with_stub = [k for k in cycle_kinds if k != "plain" and "nat" in RC.KINDS[k][3]]
+    ctx.stream_stat("rec" + SUF(), cases=n, systematic=sum(1 for c in cases if "/" in c[0]), random=sum(1 for c in cases if "/" not in c[0]),
+                    cycle_kinds=len(cycle_kinds), enclosing_kinds=len(kinds), pads=npads, outcomes=outcomes,
+                    catch_levels=len(levels), counters_and_roots_compared=0 if not HAVE_DRIVER else n, runs_again_under_gc_every_1=min(n, ngc),
+                    cycle_kinds_with_a_stub_frame=len(with_stub),
+                    of_those_limit_hit_at_the_stub_and_at_a_laythe_frame=sum(1 for k in with_stub if first_by_kind.get(k, set()) >= {"1", "2"}))
+    j = n // 3
+    ctx.sample({"rec_case": cases[j][0], "model_request": lines[j], "model": ml[j], "status": res[j]["status"], "stdout": res[j]["stdout"][-60:]})
+    ok = True
+    if HAVE_DRIVER and not RELEASE:
+        gaps = [k for k in with_stub if not first_by_kind.get(k, set()) >= {"1", "2"}]
+        if gaps and not bad:
+            ctx.violation("rec_alignment_gap", {"kind": "model-vs-implementation", "broken": "rec stream: for these recursion shapes the pads 0..%d never "
+                          "put the frame limit at the native's stub frame and at a Laythe frame" % (npads - 1), "kinds": gaps}, no_input=True)
+            ok = False
+    if bad:
+        i, msg, gc = bad
+        name, d_, m_ = cases[i]
+        crashed = "crash" in msg
+
+        def both(d2, m2):
+            return run_programs([RC.program(d2, m2, BIG_LIMIT), RC.program(d2, m2, 2)], timeout=120, extra=gc + " --stats")
+
+        def fails(d2, m2):
+            rr = both(d2, m2)
+            w = rec_spec(d2, m2, rr[0], rr[1])
+            return bool(w) and (("crash" in w) == crashed)
+        d_, m_ = rec_shrink(d_, m_, fails)
+        rr = both(d_, m_)
+        msg = rec_spec(d_, m_, rr[0], rr[1]) or msg
+        r = rr[1] if CRASH.match(rr[1]["status"]) and not CRASH.match(rr[0]["status"]) else rr[0]
+        line = RC.model_line(d_, m_)
+        ctx.cov["impl_vs_spec_failures"] += 1
+        ctx.violation("rec_spec" + SUF(), {"engine": "rec", "kind": "implementation-vs-spec", "what": msg, "case": name,
+                                           "program": RC.program(d_, m_, 2 if r is rr[1] else BIG_LIMIT), "options": STEPS + gc + " --stats",
+                                           "model_request": line, "model": (model_lines([line], engine="rec") or [None])[0] if HAVE_DRIVER else None,
+                                           "expect": r"RES end d=\d+ k=\d+ bad=0\n STATUS=Ok:0$" if rec_guarded(d_, m_) else None,
+                                           "status": r["status"], "stdout": r["stdout"][-300:], "stderr": r["stderr"][-300:], "seed": ctx.seed})
+        hang_guard(ctx, "rec", r["status"])
+        ok = False
+    if tie:
+        i, msg, gc = tie
+        name, d_, m_ = cases[i]
+        ctx.cov["model_vs_impl_disagreements"] += 1
+        ctx.violation("rec_tie", {"engine": "rec", "kind": "model-vs-implementation", "what": msg, "case": name,
+                                  "broken": "correspondence stream rec (Model/RecFrames.lean run vs call / call_closure / call_native / Fiber::stack_unwind)",
+                                  "program": RC.program(d_, m_, BIG_LIMIT), "options": STEPS + gc + " --stats", "model_request": lines[i], "model": ml[i],
+                                  "status": (gres if gc else res)[i]["status"], "stdout": (gres if gc else res)[i]["stdout"][-300:],
+                                  "temp_roots": [(res[i].get("stats_end") or {}).get("temp_roots"), (res[n + i].get("stats_end") or {}).get("temp_roots")]},
+                      no_input=True)
+        ok = False
+    return ok
+
+
+# ---------------------------------------------------------------------------------------------
 # misc stream: fixed shapes over every value kind
 
 NOT_CALLABLE = {"nil", "bool", "number", "string", "list", "map", "tuple", "instance", "enumerator", "channel"}
@@ -1510,7 +1744,8 @@ def run(ctx):
     ctx.cov["rule"] = ("sig: (arity, parameter kinds, fun/method, argument kinds) tuples — exhaustive for ≤2 parameters × ≤2 arguments over 9 kinds, "
                        "random beyond (≤4 parameters, ≤7 arguments, 15 kinds, 3% ill-formed signatures); matrix: one program per "
                        "(native of the regenerated table, receiver value, argument value tuple); deep: (native, receiver, edge values of the declared kinds); "
-                       "frames: (recursion shape, number of wrapper frames); misc: (operation, value kind); display: (graph of lists, sink); state: statement lists.  "
+                       "frames: (recursion shape, number of wrapper frames); rec: (body of the recursive function, script) as terms over "
+                       "call / native / stack-less native / try / rec — systematic (recursion kind x pad x catch level) and random; misc: (operation, value kind); display: (graph of lists, sink); state: statement lists.  "
                        "distinct = distinct request text; non-trivial = reaches the check under test "
                        "(every case does, except ill-formed signatures in `sig`)")
     rng = random.Random(ctx.seed * 7919 + 16)
@@ -1556,6 +1791,7 @@ def run(ctx):
         matrix_stream(ctx, rows, rng)
         deep_stream(ctx, rows, rng)
     frames_stream(ctx, rows)
+    rec_stream(ctx, rows, rng)
     misc_stream(ctx)
     display_stream(ctx, rng)
     state_stream(ctx, rng)
@@ -1568,6 +1804,7 @@ def run(ctx):
                     matrix_stream(ctx, rows, rng)
                     deep_stream(ctx, rows, rng)
                 frames_stream(ctx, rows)
+                rec_stream(ctx, rows, rng)
                 misc_stream(ctx)
                 display_stream(ctx, rng)
                 state_stream(ctx, rng)
@@ -1583,7 +1820,7 @@ def run(ctx):
         found_input = any(not suffix for _, suffix in ctx.violations[n_before:])
         if not found_input:
             ctx.violation("proof", {"kind": "proof-obligation-failed", "broken": what, "detail": detail,
-                                    "search": "corpus + sig + matrix + deep + frames + misc + display + state streams at search size found no failing input"}, no_input=True)
+                                    "search": "corpus + sig + matrix + deep + frames + rec + misc + display + state streams at search size found no failing input"}, no_input=True)
         else:
             ctx.cov["broken_obligation"] = what
     ctx.assumptions += [
@@ -1593,6 +1830,7 @@ def run(ctx):
         "host panics, aborts and memory faults are runtime behaviour: the model predicts only where they cannot come from the signature/unwrap and frame-limit mechanisms; everything else is sampled by the matrix, deep, frames, misc and state streams",
         "signatures of the findings that are still open are excluded from the streams: built-in subclassing (D11), blocking channel operations inside native callbacks (D6), map growth under a live map iterator (DC16.7), heap structures nested more than ~10^5 deep alive at a collection (DC16.13: the streams nest at most a few thousand deep), more than ~10^5 stacked lazy iterator adaptors (DC16.14)",
         "Display (DC16.11): a LyBox is never a first-class value and a Closure's Display writes only its Fun — the two Display impls that write a nested value outside fmt_nested (C16_display_bound_text) cannot nest; the model of Display covers graphs of lists (tuples, maps and bound methods go through the same fmt_nested)",
+        "structured frame / temporary-root model (Model/RecFrames.lean): the error is taken by the dynamically innermost `try` (C04 proves that selection through the nested execute loops of natives: raiseThrough); the bodies of the laythe_lib natives pop their own temporary roots on their error exits (C04 Gen_nativeRootExits_balanced; sampled here by the rec stream: every such native is recursed through, overflowed in and caught around); the compiler leaves temporary roots of its own per compiled function (peephole.rs), so the roots are compared with a control run of the same text instead of with zero",
         "hooks (DC16.10): `runtime_error` resolves only the VM's own error classes, whose initialiser never exits (its match has no Exit arm: C16_resolve_call_matches_text)",
     ]
 
